@@ -203,3 +203,8 @@ def run(facts, res):
         res.instance("E3", "cache type: %s" % kty, None)
         if not ok:
             res.violation("E3", "cache-key-type", "the array cache is not keyed by Revision (%s)" % kty)
+
+
+def thorough(res):
+    from .. import engine
+    engine.sensitivity("C16", res)
